@@ -69,10 +69,32 @@ def run_impl(case, d):
             for key in before:
                 if before[key] != after[key]:
                     diffs.append(f"after {k + 1} cycle(s): {key} differs: {str(before[key])[:160]} vs {str(after[key])[:160]}")
-            ok = cur.critical_path()
-            w2 = sum(int(cur.edges[u, v]["weight"]) for u, v in zip(cur.critical_path_nodes, cur.critical_path_nodes[1:]))
-            if not ok or w2 != before["path_weight"]:
-                diffs.append(f"after {k + 1} cycle(s): recomputed critical path weighs {w2} (success={ok}), the original {before['path_weight']}")
+            if k == ncycles - 1:
+                # only after the last cycle: a restored graph that is saved again must be stored as it is (saving must not recompute or alter it)
+                ok = cur.critical_path()
+                w2 = sum(int(cur.edges[u, v]["weight"]) for u, v in zip(cur.critical_path_nodes, cur.critical_path_nodes[1:]))
+                if not ok or w2 != before["path_weight"]:
+                    diffs.append(f"after {k + 1} cycle(s): recomputed critical path weighs {w2} (success={ok}), the original {before['path_weight']}")
+        # history: what-if weights set on the (restored) graph WITHOUT recomputing the path, then saved: the file must hold the graph as it is --
+        # the re-weighted edges and the path that was stored -- and restore to exactly that (saving must not recompute or repair anything)
+        edges_ = list(cur.edges)
+        if edges_:
+            for (u, v) in edges_:
+                if rng.random() < 0.4:
+                    cur.edges[u, v]["weight"] = int(cur.edges[u, v]["weight"]) * rng.choice([2, 3, 10]) + rng.choice([0, 1])
+            b3 = observe(cur)
+            z3 = cur.save(os.path.join(d, "cp_save_whatif"))
+            r3 = restore_cpgraph(z3, ta.t, res["rank"])
+            shutil.rmtree("/tmp" + os.path.join(d, "cp_save_whatif"), ignore_errors=True)
+            a3 = observe(r3)
+            a3s = observe(cur)
+            for key in b3:
+                if key == "path_weight":
+                    continue
+                if b3[key] != a3s[key]:
+                    diffs.append(f"save() altered the graph it was asked to save (re-weighted, path not recomputed): {key}: {str(b3[key])[:120]} vs {str(a3s[key])[:120]}")
+                elif b3[key] != a3[key]:
+                    diffs.append(f"re-weighted graph (path not recomputed) saved and restored: {key} differs: {str(b3[key])[:140]} vs {str(a3[key])[:140]}")
         # history: a different graph (another window of the same rank) saved into a directory that already holds a saved graph
         ann2 = "" if res["annotation"] != "" else "ProfilerStep"
         if cp.window_has_events(res["rows"], ann2, None):
